@@ -265,4 +265,55 @@ namespace rkverif_c16 {
       throw;
     }
   }
+
+  // R-C16-18: stack memory sized by the document
+  std::string stack_token(const char *begin, const char *end)   // must be reported: the token length is the allocation size
+  {
+    char *mem = static_cast<char *>(__builtin_alloca(end - begin + 1));
+    memcpy(mem, begin, end - begin);
+    mem[end - begin] = 0;
+    return std::string(mem);
+  }
+
+  int stack_fixed(const char *s)                    // must not be reported: constant size
+  {
+    char *mem = static_cast<char *>(__builtin_alloca(16));
+    mem[0]    = s[0];
+    return mem[0];
+  }
+
+  // R-C16-19: terminate in place, use, restore
+  void store_restored_elsewhere(char *&s, std::string &out)     // must be reported: saved from *end, written back to *s
+  {
+    char *begin = s;
+    while (*s && *s != '<')
+      ++s;
+    char *end = s;
+    while (end > begin && isspace((unsigned char)end[-1]))
+      --end;
+    const char saved = *end;
+    *end             = 0;
+    out              = begin;
+    *s               = saved;
+  }
+
+  void store_restored_in_place(char *&s, std::string &out)      // must not be reported
+  {
+    char *begin = s;
+    while (*s && *s != '<')
+      ++s;
+    char *end = s;
+    while (end > begin && isspace((unsigned char)end[-1]))
+      --end;
+    const char saved = *end;
+    *end             = 0;
+    out              = begin;
+    *end             = saved;
+  }
+
+  void store_other(char *&s)                        // not decided: the parser rewrites document bytes
+  {
+    if (*s == '\t')
+      *s = ' ';
+  }
 }  // namespace rkverif_c16
